@@ -21,6 +21,7 @@ type Cover struct {
 	WatchForOK, WatchForBlocked, CtxCancelled, CtxLive            int
 	WinFinRemovedBetweenMarkAndWatch, WinThirdPartyDestroy        int
 	WinPendingAtDestroy                                           int
+	UwcIdem                                                        int
 	UwcOK, UwcNoop, UwcErr, ModifyCreate, ModifyUpdate, ErrNoEffect int
 	OwnerConflicts, PhaseConflicts, CtxAmbiguous, ABA             int
 }
@@ -329,6 +330,10 @@ func stepOK(c *Call, from, post *gp.Snap) bool {
 
 	switch c.Op {
 	case "uwc", "modify", "rawupdate":
+		if c.Mut == "idem" {
+			return slices.Equal(post.S, from.S) && sameSet(append(slices.Clone(from.Fins), IdemFinalizer), post.Fins) && from.Phase == post.Phase
+		}
+
 		return slices.Equal(post.S, append(slices.Clone(from.S), c.Token)) && sameSet(from.Fins, post.Fins) && from.Phase == post.Phase
 	case "addfin":
 		return sameSet(append(slices.Clone(from.Fins), c.Fins...), post.Fins) && slices.Equal(from.S, post.S) && from.Phase == post.Phase
@@ -573,6 +578,41 @@ func CheckC04(o *Outcome) ([]Problem, Cover) {
 					if !inInterval(func(s *gp.Snap) bool { return s != nil && phaseOK(c.Phase, s) }) {
 						bad(c, "phase-conflict-retried-into-success", "%s (no-op) expecting phase %s succeeded but %s never was in that phase during the call", c.Op, c.Phase, c.ID)
 					}
+				}
+			case "idem":
+				cov.UwcIdem++
+
+				switch len(mine) {
+				case 0:
+					// nothing written: the change was there already - in a value that also satisfies the caller's expected phase
+					if !inInterval(func(s *gp.Snap) bool { return s != nil && slices.Contains(s.Fins, IdemFinalizer) && phaseOK(c.Phase, s) }) {
+						bad(c, "phase-conflict-retried-into-success", "%s (idempotent change, nothing written) expecting phase %s succeeded, but %s never had the change while in that phase during the call [%d,%d]",
+							c.Op, c.Phase, c.ID, c.CallSeq, ret)
+					}
+
+					if c.Res != nil && !inInterval(func(s *gp.Snap) bool { return snapEq(s, c.Res) }) {
+						bad(c, "noop-returned-value-never-current", "%s (idempotent change, nothing written) returned %s which was never the value of %s during the call [%d,%d]", c.Op, describe(c.Res), c.ID, c.CallSeq, ret)
+					}
+				case 1:
+					m := mine[0]
+
+					if m.Op != "update" || m.Pre == nil || !sameSet(append(slices.Clone(m.Pre.Fins), IdemFinalizer), m.Post.Fins) || !slices.Equal(m.Pre.S, m.Post.S) || m.Pre.Phase != m.Post.Phase {
+						bad(c, "mutation-not-on-top-of-current", "%s (idempotent change) commit %d: %s -> %s", c.Op, m.Seq, describe(m.Pre), describe(m.Post))
+					} else {
+						if m.Pre.Owner != c.Owner {
+							bad(c, "owner-conflict-retried-into-success", "%s with owner option %q committed on a resource owned by %q", c.Op, c.Owner, m.Pre.Owner)
+						}
+
+						if !phaseOK(c.Phase, m.Pre) {
+							bad(c, "phase-conflict-retried-into-success", "%s expecting phase %s committed on a resource in phase %s", c.Op, c.Phase, m.Pre.Phase)
+						}
+					}
+
+					if c.Res != nil && !snapEq(c.Res, m.Post) {
+						bad(c, "returned-object-differs-from-commit", "%s returned %s but committed %s", c.Op, describe(c.Res), describe(m.Post))
+					}
+				default:
+					bad(c, "mutation-not-applied-exactly-once", "%s (idempotent change) committed %d writes", c.Op, len(mine))
 				}
 			case "fail":
 				bad(c, "failing-mutator-reported-success", "%s whose mutator fails reported success", c.Op)
